@@ -161,7 +161,67 @@ def extract(facts, tname):
     m["locals"] = {k: v for k, v in pre.locals.items()}
     for arm in match_node["arms"]:
         m["arms"].append(extract_arm(facts, tname, sx, pre, arm, m))
+    m["roles"] = derive_roles(m)
     return m
+
+
+def derive_roles(m):
+    """Identify the loop variables by what they do, not by what they are called:
+       idx  – the loop-carried variable whose final value is stored (rebased) in self.last_index
+       t    – the variable added to idx every frame;  inc – what is added to t every frame
+       t0   – initial value of t;  idx0 – initial value of idx
+       end  – right-hand side of the `while idx < END` guard (fixed-input)
+       n    – the output write index (counter for fixed-input, loop variable for fixed-output)"""
+    roles = {"idx": None, "t": None, "inc": None, "t0": None, "idx0": None, "end": None, "n": None}
+    li = m["final"].fields.get("last_index")
+    if li is not None:
+        for x in walk(li):
+            if x.get("k") == "havoc" and x.get("why", "").startswith("match@"):
+                roles["idx"] = x["why"].rsplit(":", 1)[-1]
+                break
+    idx = roles["idx"]
+    pre = m["pre_match"].locals
+    if idx is None or idx not in pre:
+        raise AnchorMissing("%s: cannot identify the read-position variable (the value rebased into self.last_index)" % m["type"])
+    roles["idx0"] = pre[idx]
+    tvars, incs, ends, ns = set(), [], [], set()
+    for a in m["arms"]:
+        ups = [s for s in a["steps"] if s[0] == "update"]
+        iu = [s for s in ups if s[1] == idx]
+        a["idx_updates"] = iu
+        for s in iu:
+            if s[2] == "+" and s[3].get("k") == "path":
+                tvars.add(s[3]["p"])
+    if len(tvars) == 1:
+        roles["t"] = tvars.pop()
+        roles["t0"] = pre.get(roles["t"])
+    for a in m["arms"]:
+        ups = [s for s in a["steps"] if s[0] == "update"]
+        tu = [s for s in ups if s[1] == roles["t"]]
+        a["t_updates"] = tu
+        for s in tu:
+            incs.append(s[3])
+        if a["loop_kind"] == "while":
+            c = a.get("cond")
+            cr = a.get("cond_raw")
+            if cr is not None and cr.get("k") == "bin" and cr["op"] == "<" and is_path(cr["l"], idx):
+                ends.append(c["r"])
+        # write index
+        for w in a.get("writes", []):
+            lhs = w["lhs_raw"]
+            for x in walk(lhs):
+                if x.get("k") == "index" and not is_path(x["e"], m["wave_out"]) and x["i"].get("k") == "path":
+                    ns.add(x["i"]["p"])
+                if x.get("k") == "mcall" and x["name"] == "get_unchecked_mut" and not is_path(x["recv"], m["wave_out"]) and x["args"] and x["args"][0].get("k") == "path":
+                    ns.add(x["args"][0]["p"])
+    from norm import nbit
+    if incs and len({nbit(i) for i in incs}) == 1:
+        roles["inc"] = incs[0]
+    if ends and len({nbit(e) for e in ends}) == 1:
+        roles["end"] = ends[0]
+    if len(ns) == 1:
+        roles["n"] = ns.pop()
+    return roles
 
 
 def extract_arm(facts, tname, sx, pre, arm, m):
